@@ -192,10 +192,10 @@ impl HandleInnerEvent for AsServer<'_> {
                     error
                 );
 
+                // The dial-back for this request may still be in flight: keep the entry (so
+                // that no second dial-back to the peer is started) until the dial resolves.
                 let probe_id = match self.ongoing_inbound.get(&peer) {
-                    Some((_, rq_id, _, _)) if *rq_id == request_id => {
-                        self.ongoing_inbound.remove(&peer).unwrap().0
-                    }
+                    Some((probe_id, rq_id, _, _)) if *rq_id == request_id => *probe_id,
                     _ => self.probe_id.next(),
                 };
 
@@ -232,6 +232,10 @@ impl AsServer<'_> {
         );
 
         let (probe_id, _, _, channel) = self.ongoing_inbound.remove(peer).unwrap();
+        if !channel.is_open() {
+            // The inbound request already failed and has been reported.
+            return None;
+        }
         let response = DialResponse {
             result: Ok(address.clone()),
             status_text: None,
@@ -251,6 +255,10 @@ impl AsServer<'_> {
         error: &DialError,
     ) -> Option<InboundProbeEvent> {
         let (probe_id, _, _, channel) = peer.and_then(|p| self.ongoing_inbound.remove(&p))?;
+        if !channel.is_open() {
+            // The inbound request already failed and has been reported.
+            return None;
+        }
 
         match peer {
             Some(p) => tracing::debug!(
